@@ -732,6 +732,12 @@ func (e *ectx) unary(a *val) (fs []finding, n int) {
 		}
 		n++
 		fs = append(fs, e.wantTrue("roundtrip:in_location", fmt.Sprintf(`%s.in_location("America/New_York") == %s and %s.in_location("UTC").unix_nano == %s.unix_nano`, an, an, an, an), "changing the zone does not change the instant")...)
+		// in_location: the same instant, read in the named zone - for the value itself and for the same
+		// instant carrying a location that Go's time.Parse fabricates (an abbreviation with offset zero, an
+		// unnamed numeric offset), whose name may coincide with the name asked for
+		fs2, n2 := e.inLocationLaw(a)
+		fs = append(fs, fs2...)
+		n += n2
 	case "duration":
 		n += 3
 		fs = append(fs, e.wantInt("attr:duration.nanoseconds", an+".nanoseconds", a.ns, false, nil)...)
@@ -756,6 +762,51 @@ func (e *ectx) unary(a *val) (fs []finding, n int) {
 		}
 		n++
 		fs = append(fs, e.wantTrue("roundtrip:parse_duration(str)", fmt.Sprintf("time.parse_duration(str(%s)) == %s", an, an), "a duration printed and parsed back")...)
+	}
+	return
+}
+
+var inLocFn starlark.Value
+
+func (e *ectx) inLocationLaw(a *val) (fs []finding, n int) {
+	if inLocFn == nil {
+		v, err := starlark.EvalOptions(&syntax.FileOptions{}, e.th, "inloc", "lambda t, L: (lambda x: [x.year, x.month, x.day, x.hour, x.minute, x.second, x.nanosecond, x.unix, x == t])(t.in_location(L))", e.env)
+		if err != nil {
+			fw.Fatal("c19: %v", err)
+		}
+		inLocFn = v
+	}
+	base := gotime.Time(a.v.(stime.Time))
+	recvs := []struct {
+		name string
+		t    gotime.Time
+	}{
+		{"the value", base},
+		{"the instant in a fabricated zone EST+0", base.In(gotime.FixedZone("EST", 0))},
+		{"the instant in a fabricated zone MST+3600", base.In(gotime.FixedZone("MST", 3600))},
+		{"the instant in an unnamed zone -05:00", base.In(gotime.FixedZone("", -5*3600))},
+		{"the instant in a zone named UTC at +02:00", base.In(gotime.FixedZone("UTC", 7200))},
+	}
+	for _, rc := range recvs {
+		for _, L := range []string{"UTC", "America/New_York", "Local", "EST", "MST", "", "Asia/Kolkata"} {
+			loc, err := gotime.LoadLocation(L)
+			if err != nil {
+				continue
+			}
+			n++
+			w := rc.t.In(loc)
+			want := fmt.Sprintf("[%d, %d, %d, %d, %d, %d, %d, %d, True]", w.Year(), int(w.Month()), w.Day(), w.Hour(), w.Minute(), w.Second(), w.Nanosecond(), w.Unix())
+			got := "error"
+			r, err := starlark.Call(e.th, inLocFn, starlark.Tuple{stime.Time(rc.t), starlark.String(L)}, nil)
+			if err == nil {
+				got = r.String()
+			} else {
+				got = "error: " + err.Error()
+			}
+			if got != want {
+				fs = append(fs, finding{"in_location:components", fmt.Sprintf("%s (%s).in_location(%q): year..second, nanosecond, unix, same instant = %s, the zone database says %s [%s] [%s]", rc.name, rc.t, L, got, want, a.Desc, e.host)})
+			}
+		}
 	}
 	return
 }
